@@ -58,6 +58,13 @@ type Doc struct {
 	// Version 1 never asks the account for its name, so requests cannot be held inside the read lock
 	// while such a document is active: only scenarios without gated requests use it.
 	V1 bool `json:"v1,omitempty"`
+	// a version 2 document that configures a relay (Relay) names a second relay next to it that cannot take
+	// registrations: "unparsable" = an address no builder client can be made from (url.Parse rejects it, so
+	// util.FetchBuilderClient fails every time it is asked), "nosubmit" = a relay whose builder client is not a
+	// ValidatorRegistrationsSubmitter.  The code logs the error for that relay and carries on with the others:
+	// nothing the model predicts depends on it (the document is d_relay = true either way).  Ignored without Relay.
+	// A version 1 document lists it in the relays of its default and proposer entries.
+	Extra string `json:"extra,omitempty"`
 }
 
 type Cmd struct {
@@ -110,6 +117,30 @@ type Scenario struct {
 
 const nValidators = 4
 const relayAddress = "https://relay.c12.example"
+
+// relays that cannot take registrations (Doc.Extra)
+const unparsableRelayAddress = "://unusable-relay.c12.example"
+const noSubmitRelayAddress = "https://nosubmit-relay.c12.example"
+
+func extraRelayAddress(d *Doc) string {
+	if d == nil || !d.Relay {
+		return ""
+	}
+	switch d.Extra {
+	case "unparsable":
+		return unparsableRelayAddress
+	case "nosubmit":
+		return noSubmitRelayAddress
+	}
+	return ""
+}
+
+// noSubmitClient is a builder client that is a builder.Service and nothing else.
+type noSubmitClient struct{}
+
+func (noSubmitClient) Name() string              { return "c12-nosubmit-relay" }
+func (noSubmitClient) Address() string           { return noSubmitRelayAddress }
+func (noSubmitClient) Pubkey() *phase0.BLSPubKey { return nil }
 
 var malformedContents = map[string]string{
 	"empty":        ``,
@@ -317,8 +348,12 @@ const baseMarker = uint64(1) << 40
 func docJSON(d *Doc) []byte {
 	var b strings.Builder
 	if d.V1 {
-		entry := fmt.Sprintf(`{"fee_recipient":"%s","gas_limit":"30000000","builder":{"enabled":%v,"relays":["%s"]}}`,
-			docFee(d.ID), d.Relay, relayAddress)
+		relays := `"` + relayAddress + `"`
+		if extra := extraRelayAddress(d); extra != "" {
+			relays = `"` + extra + `",` + relays
+		}
+		entry := fmt.Sprintf(`{"fee_recipient":"%s","gas_limit":"30000000","builder":{"enabled":%v,"relays":[%s]}}`,
+			docFee(d.ID), d.Relay, relays)
 		fmt.Fprintf(&b, `{"default_config":%s,"proposer_config":{`, entry)
 		for v := uint64(1); v <= nValidators; v++ {
 			pk := pubkeyOf(v)
@@ -341,7 +376,11 @@ func docJSON(d *Doc) []byte {
 		fmt.Fprintf(&b, `{"version":2,"fee_recipient":"%s"`, docFee(d.ID))
 	}
 	if d.Relay {
-		fmt.Fprintf(&b, `,"relays":{"%s":{}}`, relayAddress)
+		if extra := extraRelayAddress(d); extra != "" {
+			fmt.Fprintf(&b, `,"relays":{"%s":{},"%s":{}}`, extra, relayAddress)
+		} else {
+			fmt.Fprintf(&b, `,"relays":{"%s":{}}`, relayAddress)
+		}
 	}
 	if entries {
 		// the validators that still resolve get entries of their own (by public key for the validator
@@ -817,6 +856,7 @@ func caseTerm(id uint64, s Scenario, o Obs, readerWrites int) string {
 // Generators
 
 type genState struct {
+	extraShift uint64 // which documents name a relay that cannot take registrations (see doc)
 	r         *Rand
 	s         *Scenario
 	nThreads  int
@@ -837,6 +877,12 @@ func (g *genState) add(c Cmd) int {
 	if c.Op == "reg" && g.regHeld {
 		// a second round while one is held by the relay is skipped by the service: not a round at all
 		c = Cmd{Op: "lookup", V: 1}
+	}
+	if c.Op == "refresh" && c.Doc != nil {
+		if extra := extraRelayAddress(c.Doc); extra != "" {
+			g.tags["relay-that-cannot-take-registrations"] = true
+			g.tags["extra-relay-"+c.Doc.Extra] = true
+		}
 	}
 	if c.Op == "refresh" && c.Doc != nil && c.Doc.Relay {
 		bad := map[uint64]bool{}
@@ -964,6 +1010,15 @@ func (g *genState) reader(gate bool) {
 func (g *genState) doc() *Doc {
 	g.nextDoc++
 	d := &Doc{ID: g.nextDoc, Relay: g.r.Chance(3, 4)}
+	// two documents of three name a relay that cannot take registrations next to the usable one (no random
+	// draw: the scenarios are otherwise the ones generated before this option existed); honoured only if the
+	// document ends up with a relay (callers may still change Relay)
+	switch (g.nextDoc + g.extraShift) % 3 {
+	case 1:
+		d.Extra = "unparsable"
+	case 2:
+		d.Extra = "nosubmit"
+	}
 	if g.r.Chance(1, 2) {
 		for v := uint64(1); v <= nValidators; v++ {
 			if g.r.Chance(1, 3) {
@@ -1033,6 +1088,10 @@ func gen(r *Rand, search bool) Scenario {
 	}
 	g := &genState{r: r, s: &s, tags: map[string]bool{}, cacheable: map[uint64]bool{}, keyGen: map[uint64]uint64{}}
 	fam := r.Intn(16)
+	g.extraShift = uint64(fam)
+	if s.Init == "nil" {
+		g.extraShift++
+	}
 	switch fam {
 	case 14:
 		fam = 9 // stress and bursts are where the races are found: keep their share (5 of 16; it was 3 of 12)
@@ -1069,7 +1128,7 @@ func gen(r *Rand, search bool) Scenario {
 			d := g.doc()
 			d.Entries = true
 			if v1 {
-				d = &Doc{ID: d.ID, Relay: d.Relay, V1: true}
+				d = &Doc{ID: d.ID, Relay: d.Relay, V1: true, Extra: d.Extra}
 			}
 			g.add(Cmd{Op: "refresh", Fetch: "ok", Doc: d})
 			if queued {
@@ -1533,6 +1592,7 @@ func TestC12(t *testing.T) {
 	}
 	sortStrings(malformedNames)
 	util.InjectBuilderClientC09(relayAddress, relayClient{})
+	util.InjectBuilderClientC09(noSubmitRelayAddress, noSubmitClient{})
 	if os.Getenv("VERIF_C12_CHILD") != "" {
 		child(t)
 		return
